@@ -479,7 +479,24 @@ var c14Schemes = []c14Scheme{
 	{"malformed-ipv6", "http://[::1"}, {"colon-only", ":"}, {"ftp", "ftp://ok.example.com/x"}, {"mailto", "mailto:a@example.com"}, {"https-userinfo", "https://user:pw@ok.example.com/x"},
 }
 
-var c14Bindings = []string{saml.HTTPPostBinding, saml.HTTPRedirectBinding, saml.HTTPArtifactBinding, saml.SOAPBinding, saml.SOAPBindingV1, "urn:example:unknown", "urn:mace:shibboleth:1.0:profiles:AuthnRequest"}
+// ("" = Binding="" ; "\x00absent" = no Binding attribute at all: neither names a binding whose locations could be vouched for)
+var c14Bindings = []string{saml.HTTPPostBinding, saml.HTTPRedirectBinding, saml.HTTPArtifactBinding, saml.SOAPBinding, saml.SOAPBindingV1, "urn:example:unknown", "urn:mace:shibboleth:1.0:profiles:AuthnRequest", "", "\x00absent",
+	" " + saml.HTTPPostBinding, strings.ToUpper(saml.HTTPPostBinding)}
+
+// c14BindingLabel names a binding value in case keys (distinct for every entry of c14Bindings).
+func c14BindingLabel(b string) string {
+	switch {
+	case b == "":
+		return "binding-empty"
+	case b == "\x00absent":
+		return "binding-absent"
+	case strings.HasPrefix(b, " "):
+		return "blank+" + b[strings.LastIndex(b, ":")+1:]
+	case b == strings.ToUpper(b):
+		return "upper-" + b[strings.LastIndex(b, ":")+1:]
+	}
+	return b[strings.LastIndex(b, ":")+1:]
+}
 
 // where an endpoint element can live: role descriptor element name + endpoint element name + indexed?
 type c14Slot struct {
@@ -549,7 +566,7 @@ func c14Metadata(c *core.Ctx) {
 					"qualified-Location-only", "valid-Location+qualified-Location", "valid-Location+qualified-ResponseLocation", "no-Location+ResponseLocation", "empty-Location+ResponseLocation"} {
 					for _, wrap := range []bool{false, true} {
 						slot, b, sch, attr, wrap := slot, b, sch, attr, wrap
-						key := fmt.Sprintf("md/%s/%s/%s/%s/%s/entities=%v", slot.role, slot.el, b[strings.LastIndex(b, ":")+1:], sch.name, attr, wrap)
+						key := fmt.Sprintf("md/%s/%s/%s/%s/%s/entities=%v", slot.role, slot.el, c14BindingLabel(b), sch.name, attr, wrap)
 						c.Case(key, func(t *core.T) { body(t, slot, b, sch, attr, wrap, ` index="1"`) })
 					}
 				}
@@ -570,7 +587,7 @@ func c14Metadata(c *core.Ctx) {
 				for _, attr := range []string{"Location", "ResponseLocation"} {
 					for xi, idx := range idxForms {
 						slot, b, sch, attr, idx := slot, b, sch, attr, idx
-						key := fmt.Sprintf("md-index-forms/%s/%s/%s/%s/%s/form=%d", slot.role, slot.el, b[strings.LastIndex(b, ":")+1:], sch.name, attr, xi)
+						key := fmt.Sprintf("md-index-forms/%s/%s/%s/%s/%s/form=%d", slot.role, slot.el, c14BindingLabel(b), sch.name, attr, xi)
 						c.Case(key, func(t *core.T) { body(t, slot, b, sch, attr, false, idx) })
 					}
 				}
@@ -616,6 +633,10 @@ func c14MetadataBody(known map[string]bool) func(t *core.T, slot c14Slot, b stri
 				ep += idxAttrs
 			}
 			ep += "/>"
+			if b == "\x00absent" {
+				ep = strings.Replace(ep, ` Binding="`+xmlAttrEscape(b)+`"`, "", 1)
+				ep = strings.Replace(ep, ` Binding="`+b+`"`, "", 1)
+			}
 			roles := fmt.Sprintf(`<%s protocolSupportEnumeration="urn:oasis:names:tc:SAML:2.0:protocol">%s</%s>`, slot.role, ep, slot.role)
 			// ParseMetadata / getSPMetadata look for IDP / SP descriptors inside EntitiesDescriptor
 			extra := `<IDPSSODescriptor protocolSupportEnumeration="urn:oasis:names:tc:SAML:2.0:protocol"><SingleSignOnService Binding="urn:oasis:names:tc:SAML:2.0:bindings:HTTP-POST" Location="https://ok.example.com/sso"/></IDPSSODescriptor>` +
